@@ -338,6 +338,34 @@ macro_rules! c09_slice_eq {
         }
     };
 }
+/// the same from an arbitrary pre-densification state with the given population pattern (one item):
+/// covers slice calls on sketchers that already hold data, in particular fully populated ones
+macro_rules! c09_slice_state {
+    ($fname:ident, $kmod:ident, $alias:ty) => {
+        fn $fname<const M: usize, const MASK: usize>() {
+            let mut x = $kmod::any_state::<M>(MASK);
+            let mut y: $alias = <$alias>::new(M, BuildHasherDefault::<NoHashHasher>::default());
+            for k in 0..M {
+                y.hsketch[k] = x.hsketch[k];
+                y.values[k] = x.values[k];
+                y.init[k] = x.init[k];
+            }
+            y.nb_empty = x.nb_empty;
+            let items: [u64; 1] = kani::any();
+            let r = strip(x.sketch_slice(&items));
+            assert!(r.is_some());
+            y.sketch(&items[0]);
+            y.end_sketch();
+            for k in 0..M {
+                assert!(beq(x.hsketch[k], y.hsketch[k]) && x.values[k] == y.values[k] && x.init[k] == y.init[k]);
+            }
+            assert!(x.nb_empty == 0 && y.nb_empty == 0);
+            kani::cover!(x.values[0] == nohash(items[0]), "witness: the item took bin 0");
+        }
+    };
+}
+c09_slice_state!(c09_opt_slice_state, optk, Opt64);
+c09_slice_state!(c09_rev_slice_state, revk, Rev64);
 c09_slice_eq!(c09_opt_slice, optk, Opt64);
 c09_slice_eq!(c09_rev_slice, revk, Rev64);
 
@@ -422,6 +450,12 @@ dproof!(c09_rev_densify_m3_p3, 7, c09_rev_densify::<3, 3>());
 dproof!(c09_rev_densify_m3_p4, 7, c09_rev_densify::<3, 4>());
 dproof!(c09_rev_densify_m3_p5, 7, c09_rev_densify::<3, 5>());
 dproof!(c09_rev_densify_m3_p6, 7, c09_rev_densify::<3, 6>());
+dproof!(c09_opt_slice_full_m2, 5, c09_opt_slice_state::<2, 3>());
+dproof!(c09_opt_slice_full_m3, 6, c09_opt_slice_state::<3, 7>());
+dproof!(c09_opt_slice_part_m3, 6, c09_opt_slice_state::<3, 5>());
+dproof!(c09_rev_slice_full_m2, 5, c09_rev_slice_state::<2, 3>());
+dproof!(c09_rev_slice_full_m3, 6, c09_rev_slice_state::<3, 7>());
+dproof!(c09_rev_slice_part_m3, 8, c09_rev_slice_state::<3, 5>());
 dproof!(c09_opt_slice_m2, 5, c09_opt_slice::<2>());
 dproof!(c09_opt_slice_m3, 6, c09_opt_slice::<3>());
 dproof!(c09_rev_slice_m2, 5, c09_rev_slice::<2>());
